@@ -9,6 +9,7 @@ import (
 	"testing"
 	"time"
 
+	"github.com/mdlayher/corerad/internal/system"
 	"github.com/mdlayher/corerad/internal/vfh"
 	"github.com/mdlayher/ndp"
 )
@@ -173,8 +174,5 @@ func verifC16(t *testing.T, r *vfh.Rand, out *vfh.Out) {
 	}
 }
 
-func verifC13(t *testing.T, r *vfh.Rand, out *vfh.Out) { t.Fatal("C13 harness not built yet") }
-func verifC14(t *testing.T, r *vfh.Rand, out *vfh.Out) { t.Fatal("C14 harness not built yet") }
-func verifC15(t *testing.T, r *vfh.Rand, out *vfh.Out) { t.Fatal("C15 harness not built yet") }
-
 var _ = fmt.Sprint
+var _ system.IP
